@@ -105,7 +105,7 @@ prop("C18", "other",
      "call of the sync client maps that to TimeoutError; the async _recv wraps the whole retry loop in "
      "wait_for(self._timeout) and remaps the asyncio timeout; sync passes int(timeout*NS), async 0. The skip loop of "
      "_recv_inner tests no deadline (C18.deadline): recorded as a known finding.",
-     [("C18.arm", c18.arm), ("C18.deadline", c18.deadline), ("C18.map", py.blocking_wrapped), ("C18.py", py.timeouts), ("C18.recv-once", c18.recv_loops), ("C18.skip", c04.skip_loop)])
+     [("C18.arm", c18.arm), ("C18.deadline", c18.deadline), ("C18.map", py.blocking_wrapped), ("C18.py", py.timeouts), ("C18.recv-once", c18.recv_loops), ("C18.skip", c04.skip_loop), ("C18.exc", c07.exc_table)])
 
 from .rules import numrules  # noqa: E402
 
@@ -159,7 +159,7 @@ prop("C16", "proof",
      "&tail[hdr.length..] of the same header parse; decode(tail, &hdr) pairs; all seven try_from (3 messages, USM, 3 PDUs) "
      "return Ok only across the empty-remainder edge of their enclosing SEQUENCE.",
      [("C16.extent", codec.extent), ("C16.hdr", codec.hdr_contract), ("C16.rest", codec.rest), ("C16.pair", codec.pair),
-      ("C16.trailing", codec.trailing), ("C16.lists", codec.list_loops)])
+      ("C16.trailing", codec.trailing), ("C16.lists", codec.list_loops), ("C16.fresh", crypto.priv_fresh)])
 
 prop("C02", "other",
      "Necessary conditions only (numerical equality of decoded values with their X.690 denotation is NOT decided): the "
@@ -249,7 +249,7 @@ prop("C17", "proof",
      "only from the two decrypts (which fill the space before reading), as_slice(n) only from recv_socket with n = recv's result; "
      "no Result of a push is dropped; send only across push_pdu's Ok edge; OutOfBuffer -> SnmpEncodeError; length-form table.",
      [("C17.sites", numrules.c17_sites), ("C17.owner", crypto.buffer_owner), ("C17.err", crypto.buffer_err), ("C17.send", crypto.fresh_buffers),
-      ("C17.len", codec.length_forms), ("C17.exc", c07.exc_table), ("C17.priv-fresh", crypto.priv_fresh), ("C17.nested", crypto.nested_lengths), ("C17.handlen", crypto.hand_lengths)])
+      ("C17.len", codec.length_forms), ("C17.exc", c07.exc_table), ("C17.priv-fresh", crypto.priv_fresh), ("C17.nested", crypto.nested_lengths), ("C17.handlen", crypto.hand_lengths), ("C17.padconst", crypto.pad_constants)])
 
 prop("C09", "other",
      "HMAC byte equality is NOT decided. Decided: in v3 push_pdu sign runs on every Ok path of an authenticated session with no "
@@ -270,7 +270,7 @@ prop("C11", "other",
      "place equals the range returned (b[..padded_len]) and padded_len is proved in bounds (num); push_pdu passes the session's "
      "scoped PDU, boots and time in this order; the skipped buffer is parsed only after a successful decryption; key localisation "
      "chain (auth digest, session engine id, own key-type bits).",
-     [("C11.fresh", crypto.priv_fresh), ("C11.layout", crypto.priv_layout), ("C11.args", v3.cred), ("C11.keys", v3.keys), ("C11.choice", v3.priv_choice), ("C11.msgflags", crypto.msg_flags), ("C11.pad", numrules.des_padding)])
+     [("C11.fresh", crypto.priv_fresh), ("C11.layout", crypto.priv_layout), ("C11.args", v3.cred), ("C11.keys", v3.keys), ("C11.choice", v3.priv_choice), ("C11.msgflags", crypto.msg_flags), ("C11.pad", numrules.des_padding), ("C11.scoped", crypto.key_size_guards), ("C11.padconst", crypto.pad_constants)])
 
 prop("C12", "other",
      "Digest equality with RFC 3414 A.2 is NOT decided. Decided: no undischarged panic site from SnmpV3ClientSocket::new, "
@@ -281,7 +281,7 @@ prop("C12", "other",
      "engine id, key; password_to_master feeds exactly MEGABYTE/len whole copies and then password[..MEGABYTE%len]; the privacy key "
      "is localised with the auth digest, the session engine id and its own key-type bits (new and set_keys).",
      [("C12.refuse", numrules.c12_refuse), ("C12.dispatch", crypto.key_dispatch), ("C12.ffi", crypto.key_ffi), ("C12.chain", crypto.key_chain),
-      ("C12.keys", v3.keys), ("C12.const", crypto.hmac_consts)])
+      ("C12.keys", v3.keys), ("C12.const", crypto.hmac_consts), ("C12.sizes", crypto.key_size_guards)])
 
 prop("C14", "other",
      "Given the rules, uniqueness follows (+1 mod 2^w is injective over fewer than 2^w steps): salt_value is written only at key "
@@ -289,4 +289,4 @@ prop("C14", "other",
      "encrypt lies between copying the salt into the message and advancing the counter; the transmitted parameters are 8 octets "
      "([u8; 8] / [u8; 16][8..]); flag_priv, the Encrypted/Plaintext choice and the encrypt call are governed by the same "
      "has_priv() and Encrypted carries encrypt()'s output. NOT decided: absence of plaintext octet runs in the ciphertext.",
-     [("C14.counter", crypto.salt_counter), ("C14.flag", v3.priv_choice), ("C14.cred", v3.cred), ("C14.layout", crypto.priv_layout), ("C14.msgflags", crypto.msg_flags), ("C14.py", py.refresh_flow), ("C14.user", crypto.key_ffi)])
+     [("C14.counter", crypto.salt_counter), ("C14.flag", v3.priv_choice), ("C14.cred", v3.cred), ("C14.layout", crypto.priv_layout), ("C14.msgflags", crypto.msg_flags), ("C14.py", py.refresh_flow), ("C14.user", crypto.key_ffi), ("C14.keys", v3.keys), ("C14.dispatch", crypto.key_dispatch)])
